@@ -98,7 +98,11 @@ func (fr *Frame) execCall(v *ssa.Call, c *ssa.CallCommon, st *State, r string) {
 	if c.IsInvoke() {
 		args = append(args, fr.val(c.Value))
 		argT = append(argT, c.Value.Type())
-		fr.safetyObl("nil", r, sNot(sEq(args[0][0], "0")), c.Pos(), "method call on nil interface")
+		if _, isIface := c.Value.Type().Underlying().(*types.Interface); isIface && len(args[0]) == 2 {
+			if _, isTP := types.Unalias(c.Value.Type()).(*types.TypeParam); !isTP {
+				fr.safetyObl("nil", r, sNot(sEq(args[0][0], "0")), c.Pos(), "method call on nil interface")
+			}
+		}
 	}
 	for _, a := range c.Args {
 		args = append(args, fr.val(a))
@@ -535,6 +539,16 @@ func (fr *Frame) havocTarget(env *Env, e Expr, st *State) error {
 		}
 		fr.havocRange(st, v.Addr, v.T)
 		return nil
+	case ECall:
+		if gs, ok := fr.eng.cs.Ghosts[x.Fun]; ok {
+			key, idx, srt, _, err := env.ghostLoc(x, gs)
+			if err != nil {
+				return err
+			}
+			nv := vc.fresh("ghost_"+x.Fun, Sort(srt.elem()))
+			vc.storeComp(st, srt, key, idx, nv)
+			return nil
+		}
 	}
 	return fmt.Errorf("unsupported assigns target")
 }
